@@ -46,11 +46,15 @@ def run_reference(case):
     except Exception as e:
         ref['len'] = type(e).__name__
     ctx.armed = True
+    take = case.get('take')
     for ep in range(case.get('epochs', 1)):
         out = []
         rec = {'out': out, 'end': 'exhausted', 'exc': None}
         try:
             for x in ds:
+                if take is not None and len(out) >= take:
+                    rec['end'] = 'stopped'
+                    break
                 out.append(W.norm(x))
         except REFUSALS as e:
             rec['end'] = 'refused'
@@ -68,6 +72,8 @@ def run_reference(case):
 def _consume(sim, ctx, ds, case, rec):
     """The scripted consumer (runs as simulated thread T0)."""
     stop = case.get('stop') or {'kind': 'exhaust'}
+    if case.get('take') is not None:
+        stop = {'kind': 'close', 'k': case['take']}
     kind = stop['kind']
     k_stop = stop.get('k', 0)
     think_seed = case.get('think_seed', 0)
@@ -131,8 +137,8 @@ def run_par_case(case):
     res = {'ref': ref, 'ref_log': refctx.log, 'epochs': [], 'len': None,
            'build_error': None, 'failure': None}
     patches = stubs.future_logging_patches()
-    backends = {st.get('backend', 't') for st in desc['stages']
-                if st['op'] in ('prefetch', 'parmap')}
+    backends = {st.get('backend', 't') for d_ in (desc, case.get('prelude') or {'stages': []})
+                for st in d_['stages'] if st['op'] in ('prefetch', 'parmap')}
     if backends - {'t', False}:
         patches += stubs.pool_patches()
     try:
@@ -153,6 +159,23 @@ def run_par_case(case):
         ctx.armed = True
         with S.simulation(sim, extra_patches=patches):
             try:
+                if case.get('prelude'):
+                    # another pipeline with the same parallel configuration is
+                    # used (and dropped) first: state that a stage keeps beyond
+                    # one iteration (memoised payloads, class-level flags, pools)
+                    # must not leak into the pipeline under observation
+                    try:
+                        pre = W.build(case['prelude'], parallel=True)
+                        for _x in pre:
+                            pass
+                    except S.SimAbort:
+                        raise
+                    except Exception as e:
+                        ctx.event('prelude_error', type(e).__name__)
+                    pre = None
+                    _x = None
+                    sim.drain()
+                    ctx.event('prelude_done')
                 for ep in range(case.get('epochs', 1)):
                     rec = {'out': [], 'end': None, 'exc': None, 'exc_same': None,
                            'alive_at_return': None}
